@@ -8,8 +8,11 @@ Open Scope Z_scope.
 
 Definition entry (e : ed) (k : Z) : list Z := nth (Z.to_nat (zlen (hist e) - k)) (hist e) [].
 Definition saved (e : ed) : list (list Z * Z) := rev (u_items (lh_get (lines e) (-1))).
-(* no history line has been edited in this call: their undo logs are empty *)
-Definition clean (e : ed) : Prop := forall k, 0 <= k -> u_items (lh_get (lines e) k) = [].
+(* the undo log of a history line, when it has one, ends with that line's stored text: the
+   lines of the history have not been edited in this call (walking to a line files it in
+   its own log) *)
+Definition clean (e : ed) : Prop := forall k, 0 <= k ->
+  match rev (u_items (lh_get (lines e) k)) with [] => True | (l, _) :: _ => l = nth (Z.to_nat k) (hist e) [] end.
 
 Lemma lh_get_set : forall ls k u k', lh_get (lh_set ls k u) k' = if k =? k' then u else lh_get ls k'.
 Proof.
@@ -21,26 +24,68 @@ Proof.
     + destruct (k0 =? k') eqn:B; [replace (k =? k') with false by lia; reflexivity|]. apply IH.
 Qed.
 
-Lemma put_undo_at : forall e v, line_key e = -1 ->
-  lh_get (lines (put_undo e v)) (-1) = v /\ (forall k, 0 <= k -> lh_get (lines (put_undo e v)) k = lh_get (lines e) k) /\
+Lemma put_undo_at : forall e v,
+  lh_get (lines (put_undo e v)) (line_key e) = v /\ (forall k, k <> line_key e -> lh_get (lines (put_undo e v)) k = lh_get (lines e) k) /\
   hist (put_undo e v) = hist e /\ hpos (put_undo e v) = hpos e /\ hcpos (put_undo e v) = hcpos e /\ line (put_undo e v) = line e /\
-  line_key (put_undo e v) = -1 /\ undoing (put_undo e v) = undoing e.
+  line_key (put_undo e v) = line_key e /\ undoing (put_undo e v) = undoing e.
 Proof.
-  intros e v K. unfold put_undo. rewrite K. cbn [lines set_undo hist hpos hcpos line undoing]. rewrite lh_get_set. cbn.
-  repeat split; try reflexivity; try exact K.
-  intros k Hk. rewrite lh_get_set. replace (-1 =? k) with false by lia. reflexivity.
+  intros e v. unfold put_undo. cbn [lines set_undo hist hpos hcpos line undoing]. rewrite lh_get_set.
+  replace (line_key e =? line_key e) with true by lia.
+  repeat split; try reflexivity.
+  intros k Hk. rewrite lh_get_set. replace (line_key e =? k) with false by lia. reflexivity.
 Qed.
 
-Lemma h_reset_at : forall e, line_key e = -1 ->
-  u_items (lh_get (lines (h_reset e)) (-1)) = u_items (lh_get (lines e) (-1)) /\
-  (forall k, 0 <= k -> lh_get (lines (h_reset e)) k = lh_get (lines e) k) /\
+Lemma h_reset_at : forall e,
+  u_items (lh_get (lines (h_reset e)) (line_key e)) = u_items (lh_get (lines e) (line_key e)) /\
+  (forall k, k <> line_key e -> lh_get (lines (h_reset e)) k = lh_get (lines e) k) /\
   hist (h_reset e) = hist e /\ hpos (h_reset e) = hpos e /\ hcpos (h_reset e) = hcpos e /\ line (h_reset e) = line e.
 Proof.
-  intros e K. unfold h_reset. destruct (undoing e).
+  intros e. unfold h_reset. destruct (undoing e).
   - cbn. repeat split; reflexivity.
-  - destruct (put_undo_at e {| u_pos := 0; u_items := u_items (cur_undo e) |} K) as (A & B & C & D & E & F & _).
+  - destruct (put_undo_at e {| u_pos := 0; u_items := u_items (cur_undo e) |}) as (A & B & C & D & E & F & _).
     cbn [lines set_undo hist hpos hcpos line]. rewrite A. cbn [u_items].
-    split; [unfold cur_undo; rewrite K; reflexivity|]. split; [exact B|]. split; [exact C|]. split; [exact D|]. split; [exact E|exact F].
+    split; [reflexivity|]. split; [exact B|]. split; [exact C|]. split; [exact D|]. split; [exact E|exact F].
+Qed.
+
+(* Save, anywhere: only the log of the current line moves; it keeps its snapshots or ends with the current line *)
+Lemma h_save_gen : forall e, exists e', h_save e = Ok e' /\ hist e' = hist e /\ hpos e' = hpos e /\ hcpos e' = hcpos e /\ line e' = line e /\
+  (forall k, k <> line_key e -> lh_get (lines e') k = lh_get (lines e) k) /\
+  (u_items (lh_get (lines e') (line_key e)) = u_items (lh_get (lines e) (line_key e)) \/
+   exists p r, rev (u_items (lh_get (lines e') (line_key e))) = (line e, p) :: r) /\
+  (uskip e = false -> exists p r, rev (u_items (lh_get (lines e') (line_key e))) = (line e, p) :: r).
+Proof.
+  intros e. unfold h_save.
+  assert (Fin : forall u p r, rev (u_items u) = (line e, p) :: r ->
+            let e' := h_reset (put_undo e u) in
+            hist e' = hist e /\ hpos e' = hpos e /\ hcpos e' = hcpos e /\ line e' = line e /\
+            (forall k, k <> line_key e -> lh_get (lines e') k = lh_get (lines e) k) /\
+            rev (u_items (lh_get (lines e') (line_key e))) = (line e, p) :: r).
+  { intros u p r Hu e'. subst e'.
+    destruct (put_undo_at e u) as (A & B & C & D & E & F & G & _).
+    destruct (h_reset_at (put_undo e u)) as (A' & B' & C' & D' & E' & F'). rewrite G in A', B'.
+    rewrite C', D', E', F', C, D, E, F. repeat split; try reflexivity.
+    - intros k Hk. rewrite B', B by exact Hk. reflexivity.
+    - rewrite A', A. exact Hu. }
+  destruct (uskip e) eqn:Hs.
+  - exists (h_reset e). destruct (h_reset_at e) as (A & B & C & D & E & F).
+    split; [reflexivity|]. split; [exact C|]. split; [exact D|]. split; [exact E|]. split; [exact F|]. split; [exact B|].
+    split; [left; exact A | discriminate].
+  - destruct (rev (u_items (cur_undo e))) as [|[l p] r] eqn:Rv.
+    + destruct (c_check_command_total (c_set e (c_pos e))) as [cc C]. rewrite C. cbn [bind].
+      eexists. split; [reflexivity|].
+      destruct (Fin {| u_pos := (if zlen (u_items (cur_undo e)) <? u_pos (cur_undo e) then zlen (u_items (cur_undo e)) else u_pos (cur_undo e)); u_items := [(line e, cpos cc)] |} (cpos cc) [] eq_refl) as (F1 & F2 & F3 & F4 & F5 & F6).
+      repeat split; try assumption; [right | intros _]; exists (cpos cc), []; exact F6.
+    + destruct (eqlZ l (line e)) eqn:Q.
+      * apply eqlZ_eq in Q. subst l. eexists. split; [reflexivity|].
+        destruct (Fin {| u_pos := u_pos (cur_undo e); u_items := rev ((line e, c_pos e) :: r) |} (c_pos e) r (rev_involutive _)) as (F1 & F2 & F3 & F4 & F5 & F6).
+        repeat split; try assumption; [right | intros _]; exists (c_pos e), r; exact F6.
+      * match goal with |- context[0 <=? ?x] => replace (0 <=? x) with true end.
+        -- cbn [bind]. destruct (c_check_command_total (c_set e (c_pos e))) as [cc C]. rewrite C. cbn [bind].
+           eexists. split; [reflexivity|].
+           match goal with |- context[put_undo e ?u] => destruct (Fin u (cpos cc) (rev (firstn (Z.to_nat (zlen (u_items (cur_undo e)) - (if zlen (u_items (cur_undo e)) <? u_pos (cur_undo e) then zlen (u_items (cur_undo e)) else u_pos (cur_undo e)))) (u_items (cur_undo e))))) as (F1 & F2 & F3 & F4 & F5 & F6) end;
+             [cbn [u_items]; rewrite rev_app_distr; reflexivity|].
+           repeat split; try assumption; [right | intros _]; eexists _, _; exact F6.
+        -- symmetry. destruct (zlen (u_items (cur_undo e)) <? u_pos (cur_undo e)) eqn:Z1; lia.
 Qed.
 
 (* Save at the bottom of the history (hpos = -1): the line being entered becomes the last
@@ -49,26 +94,35 @@ Lemma h_save_bottom : forall e, uskip e = false -> hpos e = -1 -> clean e ->
   exists e' p r, h_save e = Ok e' /\ hist e' = hist e /\ hpos e' = -1 /\ hcpos e' = hcpos e /\ line e' = line e /\
     saved e' = (line e, p) :: r /\ clean e'.
 Proof.
-  intros e Hs Hp Hc. unfold h_save. rewrite Hs.
-  assert (K : line_key e = -1) by (unfold line_key; rewrite Hp; reflexivity).
-  assert (Fin : forall u p r, rev (u_items u) = (line e, p) :: r ->
-            let e' := h_reset (put_undo e u) in
-            hist e' = hist e /\ hpos e' = -1 /\ hcpos e' = hcpos e /\ line e' = line e /\ saved e' = (line e, p) :: r /\ clean e').
-  { intros u p r Hu e'. subst e'.
-    destruct (put_undo_at e u K) as (A & B & C & D & E & F & G & _).
-    destruct (h_reset_at (put_undo e u) G) as (A' & B' & C' & D' & E' & F').
-    rewrite C', D', E', F', C, D, E, F. repeat split; try assumption.
-    - unfold saved. rewrite A', A. exact Hu.
-    - intros k Hk. rewrite B', B by exact Hk. apply Hc. exact Hk. }
-  destruct (rev (u_items (cur_undo e))) as [|[l p] r] eqn:Rv.
-  - destruct (c_check_command_total (c_set e (c_pos e))) as [cc C]. rewrite C. cbn [bind].
-    eexists _, (cpos cc), []. split; [reflexivity|]. apply Fin. reflexivity.
-  - destruct (eqlZ l (line e)) eqn:Q.
-    + apply eqlZ_eq in Q. subst l. eexists _, (c_pos e), r. split; [reflexivity|]. apply Fin. cbn [u_items]. apply rev_involutive.
-    + match goal with |- context[0 <=? ?x] => replace (0 <=? x) with true end.
-      * cbn [bind]. destruct (c_check_command_total (c_set e (c_pos e))) as [cc C]. rewrite C. cbn [bind].
-        eexists _, (cpos cc), _. split; [reflexivity|]. apply Fin. cbn [u_items]. rewrite rev_app_distr. reflexivity.
-      * symmetry. destruct (zlen (u_items (cur_undo e)) <? u_pos (cur_undo e)) eqn:Z1; lia.
+  intros e Hs Hp Hc. destruct (h_save_gen e) as (e' & S & A & B & C & D & E & _ & G).
+  assert (K : line_key e = -1) by (unfold line_key; rewrite Hp; reflexivity). rewrite K in E, G.
+  destruct (G Hs) as (p & r & Hr). exists e', p, r. split; [exact S|]. split; [exact A|]. split; [lia|]. split; [exact C|]. split; [exact D|].
+  split; [exact Hr|]. intros k Hk. rewrite E by lia. rewrite A. apply Hc. exact Hk.
+Qed.
+
+(* Save on a history line that shows its stored text: the line is filed in its own log, nothing else moves *)
+Lemma h_save_walking : forall e, 1 <= hpos e <= zlen (hist e) -> line e = entry e (hpos e) -> clean e ->
+  exists e', h_save e = Ok e' /\ hist e' = hist e /\ hpos e' = hpos e /\ line e' = line e /\ saved e' = saved e /\ clean e'.
+Proof.
+  intros e Hp Hl Hc. destruct (h_save_gen e) as (e' & S & A & B & C & D & E & F & _).
+  assert (K : line_key e = zlen (hist e) - hpos e) by (unfold line_key; replace (-1 <? hpos e) with true by lia; reflexivity).
+  exists e'. split; [exact S|]. split; [exact A|]. split; [exact B|]. split; [exact D|].
+  split; [unfold saved; rewrite E by lia; reflexivity|].
+  intros k Hk. rewrite A. destruct (k =? line_key e) eqn:Q.
+  - assert (k = line_key e) by lia. subst k. destruct F as [F | (p & r & F)].
+    + rewrite F. apply Hc. exact Hk.
+    + rewrite F. rewrite Hl. unfold entry. rewrite K. reflexivity.
+  - rewrite E by lia. apply Hc. exact Hk.
+Qed.
+
+(* Save on the line being entered, whatever the skip flag: the history lines' logs do not move *)
+Lemma h_save_bottom_any : forall e, hpos e = -1 -> clean e ->
+  exists e', h_save e = Ok e' /\ hist e' = hist e /\ hpos e' = -1 /\ line e' = line e /\ clean e'.
+Proof.
+  intros e Hp Hc. destruct (h_save_gen e) as (e' & S & A & B & C & D & E & _).
+  assert (K : line_key e = -1) by (unfold line_key; rewrite Hp; reflexivity). rewrite K in E.
+  exists e'. split; [exact S|]. split; [exact A|]. split; [lia|]. split; [exact D|].
+  intros k Hk. rewrite E by lia. rewrite A. apply Hc. exact Hk.
 Qed.
 
 Lemma set_line_match_facts : forall e l, hist (h_set_line_match e l) = hist e /\ hpos (h_set_line_match e l) = hpos e /\
@@ -98,13 +152,16 @@ Proof.
     set (e3 := if n <? hpos e + pos then set_hist (set_hist e (hpos e + pos) (hcpos e)) n (hcpos e) else set_hist e (hpos e + pos) (hcpos e)).
     assert (E3 : hpos e3 = k' /\ hist e3 = hist e /\ lines e3 = lines e) by (subst e3; destruct (n <? hpos e + pos) eqn:B; cbn; repeat split; lia).
     destruct E3 as (E3a & E3b & E3c).
-    assert (CU : u_items (cur_undo e3) = []).
+    assert (CU : match rev (u_items (cur_undo e3)) with [] => True | (l, _) :: _ => l = nth (Z.to_nat (n - k')) (hist e) [] end).
     { unfold cur_undo, line_key. rewrite E3a, E3b, E3c. replace (-1 <? k') with true by lia. apply Hc. fold n. lia. }
-    rewrite CU. cbn [rev]. unfold hist_get. rewrite E3b, E3a. fold n.
-    replace (mk && (n =? 0)) with false by (destruct mk; cbn; lia).
-    replace ((n - k' <? 0) || (n <=? n - k')) with false by lia. cbn [bind].
-    eexists. split; [reflexivity|]. destruct (set_line_match_facts e3 (nth (Z.to_nat (n - k')) (hist e) [])) as (F1 & F2 & F3 & F4).
-    rewrite F1, F2, F3, F4, E3a, E3b, E3c. repeat split; try lia.
+    destruct (rev (u_items (cur_undo e3))) as [|[l0 p0] r0].
+    + unfold hist_get. rewrite E3b, E3a. fold n.
+      replace (mk && (n =? 0)) with false by (destruct mk; cbn; lia).
+      replace ((n - k' <? 0) || (n <=? n - k')) with false by lia. cbn [bind].
+      eexists. split; [reflexivity|]. destruct (set_line_match_facts e3 (nth (Z.to_nat (n - k')) (hist e) [])) as (F1 & F2 & F3 & F4).
+      rewrite F1, F2, F3, F4, E3a, E3b, E3c. repeat split; try lia.
+    + subst l0. eexists. split; [reflexivity|]. destruct (set_line_match_facts e3 (nth (Z.to_nat (n - k')) (hist e) [])) as (F1 & F2 & F3 & F4).
+      rewrite F1, F2, F3, F4, E3a, E3b, E3c. repeat split; try lia.
 Qed.
 
 (* ---------------------------------------------------------------- sequences of walks *)
@@ -120,6 +177,9 @@ Definition Inv (H : list (list Z)) (t : list Z) (e : ed) : Prop :=
 
 Lemma entry_hist : forall e e' k, hist e' = hist e -> entry e' k = entry e k.
 Proof. intros e e' k H. unfold entry. rewrite H. reflexivity. Qed.
+
+Lemma clean_transfer : forall e e', lines e' = lines e -> hist e' = hist e -> clean e -> clean e'.
+Proof. intros e e' L H C k Hk. rewrite L, H. apply C. exact Hk. Qed.
 
 Lemma walk_step : forall mk H t e pos, 0 < zlen H -> Inv H t e ->
   exists e', h_walk mk e pos = Ok e' /\ Inv H t e' /\ apos e' = astep (zlen H) (apos e) pos.
@@ -144,7 +204,7 @@ Proof.
         assert (Kp : 0 < Z.max 0 (Z.min (zlen H) (0 + pos))) by lia.
         destruct (W4 Kp) as [W4a W4b].
         exists e'. split; [exact W1|]. split.
-        -- split; [rewrite W2; exact Hh1|]. split; [intros k Hk; rewrite W3; apply S7; exact Hk|].
+        -- split; [rewrite W2; exact Hh1|]. split; [apply (clean_transfer (set_hist e1 0 (-1)) e' W3 W2); exact S7|].
            right. split; [lia|]. split; [rewrite W4a, W4b; apply eq_sym, entry_hist; exact W2|].
            exists p, r. unfold saved. rewrite W3. cbn [lines set_hist]. fold (saved e1). rewrite S6. cbn. rewrite Hl. reflexivity.
         -- unfold apos. rewrite W4a, Hp. lia.
@@ -166,11 +226,11 @@ Proof.
         destruct (Z.max 0 (Z.min (zlen H) (hpos e + pos)) =? 0) eqn:K0.
         -- assert (K : Z.max 0 (Z.min (zlen H) (hpos e + pos)) = 0) by lia.
            destruct (W5 K) as [W5a W5b]. rewrite Hs in W5b. split.
-           ++ split; [rewrite W2; exact Hh|]. split; [intros k Hk; rewrite W3; apply Hc; exact Hk|]. left. split; assumption.
+           ++ split; [rewrite W2; exact Hh|]. split; [apply (clean_transfer e e' W3 W2); exact Hc|]. left. split; assumption.
            ++ unfold apos. rewrite W5a. lia.
         -- assert (K : 0 < Z.max 0 (Z.min (zlen H) (hpos e + pos))) by lia.
            destruct (W4 K) as [W4a W4b]. split.
-           ++ split; [rewrite W2; exact Hh|]. split; [intros k Hk; rewrite W3; apply Hc; exact Hk|]. right.
+           ++ split; [rewrite W2; exact Hh|]. split; [apply (clean_transfer e e' W3 W2); exact Hc|]. right.
               split; [lia|]. split; [rewrite W4a, W4b; apply eq_sym, entry_hist; exact W2|].
               exists p, r. unfold saved. rewrite W3. exact Hs.
            ++ unfold apos. rewrite W4a. lia.
@@ -252,4 +312,229 @@ Proof.
     { induction ds0 as [|d0 ds0 IH0]; intros a0 F0; [cbn; lia|]. inversion F0; subst. cbn [fold_left]. specialize (IH0 (a0 + d0) ltac:(assumption)). lia. }
     pose proof (M ds (a + d) ltac:(assumption)). lia. }
   rewrite (G downs k 0 Hd Rg). lia.
+Qed.
+
+(* ---------------------------------------------------------------- the four commands, as run_cmd runs them *)
+
+Inductive nav := Prev | Next | Begin | End_.
+Definition nav_run (mk : bool) (e : ed) (c : nav) : res ed :=
+  match c with
+  | Prev => do e1 <- h_save e; h_walk mk e1 1
+  | Next => do e1 <- h_save e; h_walk mk e1 (-1)
+  | Begin => h_walk mk (h_skip_save e) (zlen (hist e))
+  | End_ => h_walk mk e (- zlen (hist e) + 1)
+  end.
+Definition nav_pos (n : Z) (c : nav) : Z := match c with Prev => 1 | Next => -1 | Begin => n | End_ => - n + 1 end.
+
+Lemma save_keeps_inv : forall H t e, Inv H t e -> exists e1, h_save e = Ok e1 /\ Inv H t e1 /\ hpos e1 = hpos e.
+Proof.
+  intros H t e (Hh & Hc & St). destruct St as [[Hp Hl] | (Hp & Hl & p & r & Hs)].
+  - destruct (h_save_bottom_any e Hp Hc) as (e1 & S & A & B & C & D). exists e1. split; [exact S|]. split; [|lia].
+    split; [rewrite A; exact Hh|]. split; [exact D|]. left. split; [exact B | rewrite C; exact Hl].
+  - rewrite <- Hh in Hp. destruct (h_save_walking e Hp Hl Hc) as (e1 & S & A & B & C & D & E). exists e1. split; [exact S|]. split; [|exact B].
+    split; [rewrite A; exact Hh|]. split; [exact E|]. right. rewrite B. split; [rewrite <- Hh; exact Hp|].
+    split; [rewrite C, Hl; apply eq_sym, entry_hist; exact A|]. exists p, r. rewrite D. exact Hs.
+Qed.
+
+Lemma nav_step : forall mk H t e c, 0 < zlen H -> Inv H t e ->
+  exists e', nav_run mk e c = Ok e' /\ Inv H t e' /\ apos e' = astep (zlen H) (apos e) (nav_pos (zlen H) c).
+Proof.
+  intros mk H t e c Hn I. destruct c; cbn [nav_run nav_pos].
+  - destruct (save_keeps_inv H t e I) as (e1 & S & I1 & P1). rewrite S. cbn [bind].
+    destruct (walk_step mk H t e1 1 Hn I1) as (e' & W & I' & A). exists e'. split; [exact W|]. split; [exact I'|]. rewrite A. unfold apos. rewrite P1. reflexivity.
+  - destruct (save_keeps_inv H t e I) as (e1 & S & I1 & P1). rewrite S. cbn [bind].
+    destruct (walk_step mk H t e1 (-1) Hn I1) as (e' & W & I' & A). exists e'. split; [exact W|]. split; [exact I'|]. rewrite A. unfold apos. rewrite P1. reflexivity.
+  - assert (I1 : Inv H t (h_skip_save e)) by exact I.
+    destruct (walk_step mk H t (h_skip_save e) (zlen (hist e)) Hn I1) as (e' & W & I' & A). exists e'. split; [exact W|]. split; [exact I'|].
+    destruct I as (Hh & _). rewrite A, Hh. reflexivity.
+  - destruct (walk_step mk H t e (- zlen (hist e) + 1) Hn I) as (e' & W & I' & A). exists e'. split; [exact W|]. split; [exact I'|].
+    destruct I as (Hh & _). rewrite A, Hh. reflexivity.
+Qed.
+
+Fixpoint nav_runs (mk : bool) (cs : list nav) (e : ed) : res ed :=
+  match cs with
+  | [] => Ok e
+  | c :: r => do e' <- nav_run mk e c; nav_runs mk r e'
+  end.
+
+Definition nav_fold (n : Z) (cs : list nav) (k : Z) : Z := fold_left (fun k c => astep n k (nav_pos n c)) cs k.
+
+Lemma nav_runs_inv : forall mk H t cs e, 0 < zlen H -> Inv H t e ->
+  exists e', nav_runs mk cs e = Ok e' /\ Inv H t e' /\ apos e' = nav_fold (zlen H) cs (apos e).
+Proof.
+  intros mk H t cs. induction cs as [|c cs IH]; intros e Hn I; [exists e; repeat split; try apply I; reflexivity|].
+  destruct (nav_step mk H t e c Hn I) as (e1 & W & I1 & A1). cbn [nav_runs]. rewrite W. cbn [bind].
+  destruct (IH e1 Hn I1) as (e2 & W2 & I2 & A2). exists e2. split; [exact W2|]. split; [exact I2|]. rewrite A2, A1. reflexivity.
+Qed.
+
+(* every sequence of previous-history / next-history / beginning-of-history / end-of-history,
+   each run as the command runs (its own Save or SkipSave, then Walk), on every history *)
+Theorem nav_commands_show_the_entries : forall mk cs e, 0 < zlen (hist e) -> hpos e = -1 -> clean e ->
+  exists e', nav_runs mk cs e = Ok e' /\ hist e' = hist e /\
+    let k := nav_fold (zlen (hist e)) cs 0 in
+    (k = 0 -> hpos e' = -1 /\ line e' = line e) /\
+    (0 < k -> hpos e' = k /\ line e' = entry e k).
+Proof.
+  intros mk cs e Hn Hp Hc.
+  assert (I : Inv (hist e) (line e) e) by (split; [reflexivity|]; split; [exact Hc|]; left; split; [exact Hp | reflexivity]).
+  destruct (nav_runs_inv mk (hist e) (line e) cs e Hn I) as (e' & W & (Hh & Hc' & St) & A).
+  exists e'. split; [exact W|]. split; [exact Hh|].
+  assert (A0 : apos e = 0) by (unfold apos; rewrite Hp; reflexivity). rewrite A0 in A. cbv zeta. rewrite <- A.
+  unfold apos. destruct St as [[P L] | (P & L & _)].
+  - split; [intros _; split; assumption | intros K; rewrite P in K; lia].
+  - split; [intros K; lia | intros _; split; [lia|]]. rewrite L. replace (Z.max 0 (hpos e')) with (hpos e') by lia. apply entry_hist. exact Hh.
+Qed.
+
+(* ---------------------------------------------------------------- ... and as the loop runs them: run_one *)
+
+From Coq Require Import String.
+
+Definition nav_name (c : nav) : list Z :=
+  match c with
+  | Prev => zs "previous-history" | Next => zs "next-history"
+  | Begin => zs "beginning-of-history" | End_ => zs "end-of-history"
+  end%string.
+
+Lemma run_command_nav : forall c keys mk mx e, run_command (nav_name c) keys mk mx e = nav_run mk e c.
+Proof.
+  intros c keys mk mx e. destruct c; unfold nav_name, run_command; cbv zeta;
+    repeat match goal with |- context[eqlZ (zs ?a) (zs ?b)] =>
+             let v := eval vm_compute in (eqlZ (zs a) (zs b)) in change (eqlZ (zs a) (zs b)) with v; cbv iota end;
+    reflexivity.
+Qed.
+
+(* nothing but the cursor and the mark differs *)
+Definition only_cursor (e e' : ed) : Prop :=
+  hist e' = hist e /\ lines e' = lines e /\ hpos e' = hpos e /\ line e' = line e /\ pending e' = pending e /\
+  uskip e' = uskip e /\ undoing e' = undoing e /\ kmain e' = kmain e.
+
+Lemma only_cursor_refl : forall e, only_cursor e e. Proof. intros e. repeat split. Qed.
+Lemma only_cursor_trans : forall a b c, only_cursor a b -> only_cursor b c -> only_cursor a c.
+Proof. unfold only_cursor. intros a b c H1 H2. intuition congruence. Qed.
+
+Lemma c_check_append_oc : forall e, only_cursor e (c_check_append e).
+Proof. intros e. unfold c_check_append. repeat split. Qed.
+
+Lemma c_dec_oc : forall e, only_cursor e (c_dec e).
+Proof. intros e. unfold c_dec. destruct (0 <? cpos e); repeat split. Qed.
+
+Lemma c_check_command_oc : forall e e', c_check_command e = Ok e' -> only_cursor e e'.
+Proof.
+  intros e e' H. unfold c_check_command in H.
+  destruct (c_on_empty_line (c_check_append e)) as [oe| |]; cbn [bind] in H; try discriminate.
+  set (e1 := if (cpos (c_check_append e) =? llen (c_check_append e)) && negb oe then set_cpos (c_check_append e) (cpos (c_check_append e) - 1) else c_check_append e) in *.
+  assert (O1 : only_cursor e e1) by (subst e1; destruct (_ && negb oe); [apply (only_cursor_trans _ _ _ (c_check_append_oc e)); repeat split | apply c_check_append_oc]).
+  destruct ((0 <? llen e1) && (cpos e1 <? llen e1) && (c_char e1 =? 10)).
+  - destruct (c_on_empty_line (c_check_append e1)) as [oe2| |]; cbn [bind] in H; try discriminate. inversion H; subst e'.
+    apply (only_cursor_trans _ _ _ O1). apply (only_cursor_trans _ _ _ (c_check_append_oc e1)).
+    destruct (negb oe2); [apply c_dec_oc | apply only_cursor_refl].
+  - inversion H; subst e'. exact O1.
+Qed.
+
+Lemma Inv_oc : forall H t e e', only_cursor e e' -> Inv H t e -> Inv H t e'.
+Proof.
+  intros H t e e' (A & B & C & D & _) (Hh & Hc & St).
+  split; [rewrite A; exact Hh|]. split; [apply (clean_transfer e e' B A Hc)|].
+  destruct St as [[P L] | (P & L & p & r & S)]; [left; rewrite C, D; split; assumption|].
+  right. rewrite C. split; [exact P|]. split; [rewrite D, L; apply eq_sym, entry_hist; exact A|]. exists p, r. unfold saved. rewrite B. exact S.
+Qed.
+
+Lemma h_walk_to_pending : forall mk e pos, match h_walk_to mk e pos with Ok e' => pending e' = pending e /\ it_pending e' = it_pending e | _ => True end.
+Proof.
+  intros mk e pos0. unfold h_walk_to.
+  set (pos := if (0 <? hpos e) && (hpos e + pos0 <? 0) then - hpos e else pos0). clearbody pos.
+  set (e2 := set_hist e (hpos e + pos) (hcpos e)).
+  destruct (hpos e2 <? -1); [split; reflexivity|].
+  destruct (hpos e2 =? 0); [unfold h_restore_line; destruct (rev _) as [|[l p] r]; split; reflexivity|].
+  match goal with |- context[cur_undo ?x] => set (e3 := x) end.
+  assert (H3 : pending e3 = pending e /\ it_pending e3 = it_pending e) by (unfold e3; destruct (zlen (hist e) <? hpos e2); split; reflexivity).
+  destruct (rev (u_items (cur_undo e3))) as [|[l p] r].
+  + destruct (hist_get mk (hist e3) (zlen (hist e) - hpos e3)) as [g| |]; cbn [bind]; auto.
+    destruct g; [unfold h_set_line_match; destruct (_ && _); cbn; exact H3 | exact H3].
+  + unfold h_set_line_match. destruct (_ && _); cbn; exact H3.
+Qed.
+
+Lemma h_save_pending : forall e e', h_save e = Ok e' -> pending e' = pending e /\ it_pending e' = it_pending e.
+Proof.
+  intros e e' H. pose proof (h_save_shape e) as S. rewrite H in S.
+  destruct S as [S | [u S]]; subst e'; unfold h_reset, put_undo; destruct (undoing _); split; reflexivity.
+Qed.
+
+Lemma h_walk_pending : forall mk e pos e', h_walk mk e pos = Ok e' -> pending e' = pending e /\ it_pending e' = it_pending e.
+Proof.
+  intros mk e pos e' H. unfold h_walk in H.
+  destruct (zlen (hist e) =? 0); [inversion H; split; reflexivity|].
+  destruct (pos =? 0); [inversion H; split; reflexivity|].
+  destruct ((hpos e =? zlen (hist e)) && (pos =? 1)); [inversion H; split; reflexivity|].
+  destruct ((hpos e =? -1) && (0 <? pos)).
+  - destruct (h_save (set_undo e (lines e) false (undoing e))) as [e1| |] eqn:S; cbn [bind] in H; try discriminate.
+    apply h_save_pending in S. pose proof (h_walk_to_pending mk (set_hist e1 0 (-1)) pos) as W. rewrite H in W. cbn in W, S.
+    destruct W as [W1 W2], S as [S1 S2]. split; congruence.
+  - cbn [bind] in H. pose proof (h_walk_to_pending mk e pos) as W. rewrite H in W. exact W.
+Qed.
+
+Lemma nav_run_pending : forall mk e c e', nav_run mk e c = Ok e' -> pending e' = pending e /\ it_pending e' = it_pending e.
+Proof.
+  intros mk e c e' H. destruct c; cbn [nav_run] in H.
+  - destruct (h_save e) as [e1| |] eqn:S; cbn [bind] in H; try discriminate. apply h_save_pending in S. apply h_walk_pending in H. intuition congruence.
+  - destruct (h_save e) as [e1| |] eqn:S; cbn [bind] in H; try discriminate. apply h_save_pending in S. apply h_walk_pending in H. intuition congruence.
+  - apply h_walk_pending in H. exact H.
+  - apply h_walk_pending in H. exact H.
+Qed.
+
+(* one navigation command as the Readline loop runs it (run/execute of readline.go around
+   the command: active command, pending operator - none here -, cursor check, iteration
+   bookkeeping, the undo save after the command) *)
+Lemma run_one_nav : forall mk mx keys H t e c, 0 < zlen H -> Inv H t e -> pending e = [] ->
+  exists e', run_one (nav_name c) keys mk mx e = Ok e' /\ Inv H t e' /\ pending e' = [] /\
+    apos e' = astep (zlen H) (apos e) (nav_pos (zlen H) c).
+Proof.
+  intros mk mx keys H t e c Hn I Pe. unfold run_one. rewrite run_command_nav.
+  assert (I0 : Inv H t (set_active_cmd e (nav_name c))) by exact I.
+  destruct (nav_step mk H t (set_active_cmd e (nav_name c)) c Hn I0) as (e1 & W & I1 & A1). rewrite W. cbn [bind].
+  destruct (nav_run_pending _ _ _ _ W) as [P1 _]. cbn [pending set_active_cmd] in P1. rewrite Pe in P1.
+  rewrite P1. cbn [rev app].
+  replace (if negb (it_pending e1) then Ok e1 else Ok e1) with (Ok e1) by (destruct (negb (it_pending e1)); reflexivity). cbn [bind].
+  assert (C3 : exists e2, (if kmain e1 =? M_vicmd then c_check_command e1 else Ok (c_check_append e1)) = Ok e2 /\ only_cursor e1 e2).
+  { destruct (kmain e1 =? M_vicmd).
+    - destruct (c_check_command_total e1) as [e2 C]. exists e2. split; [exact C | apply c_check_command_oc; exact C].
+    - exists (c_check_append e1). split; [reflexivity | apply c_check_append_oc]. }
+  destruct C3 as (e2 & C3 & O2). rewrite C3. cbn [bind].
+  assert (O3 : only_cursor e2 (it_post_run e2)) by (unfold it_post_run; destruct (it_pending e2); repeat split).
+  assert (I3 : Inv H t (it_post_run e2)) by (apply (Inv_oc _ _ _ _ O3), (Inv_oc _ _ _ _ O2); exact I1).
+  destruct (save_keeps_inv H t _ I3) as (e4 & S & I4 & P4). exists e4. split; [exact S|]. split; [exact I4|].
+  split.
+  - apply h_save_pending in S. destruct S as [S _]. rewrite S. destruct O3 as (_ & _ & _ & _ & Q3 & _), O2 as (_ & _ & _ & _ & Q2 & _). congruence.
+  - unfold apos in *. rewrite P4. destruct O3 as (_ & _ & Q3 & _), O2 as (_ & _ & Q2 & _). rewrite Q3, Q2. exact A1.
+Qed.
+
+Fixpoint run_navs (mk : bool) (mx : Z) (cs : list (nav * list Z)) (e : ed) : res ed :=
+  match cs with
+  | [] => Ok e
+  | (c, keys) :: r => do e' <- run_one (nav_name c) keys mk mx e; run_navs mk mx r e'
+  end.
+
+(* THE statement for (a)+(b): any sequence of the four navigation commands, run the way the
+   Readline loop runs a command, each called with any keys, on any history: the buffer is
+   the k-th newest stored entry, k the abstract position (0 = the line being entered, kept
+   within [0, n]); at 0 the buffer is the line that was being entered; the entries never change *)
+Theorem navigation_is_faithful : forall mk mx cs e, 0 < zlen (hist e) -> hpos e = -1 -> clean e -> pending e = [] ->
+  exists e', run_navs mk mx cs e = Ok e' /\ hist e' = hist e /\
+    let k := nav_fold (zlen (hist e)) (map fst cs) 0 in
+    (k = 0 -> hpos e' = -1 /\ line e' = line e) /\
+    (0 < k -> hpos e' = k /\ line e' = entry e k).
+Proof.
+  intros mk mx cs e Hn Hp Hc Pe.
+  assert (I : Inv (hist e) (line e) e) by (split; [reflexivity|]; split; [exact Hc|]; left; split; [exact Hp | reflexivity]).
+  assert (G : forall cs e0, Inv (hist e) (line e) e0 -> pending e0 = [] ->
+            exists e', run_navs mk mx cs e0 = Ok e' /\ Inv (hist e) (line e) e' /\ apos e' = nav_fold (zlen (hist e)) (map fst cs) (apos e0)).
+  { induction cs0 as [|[c keys] cs0 IH]; intros e0 I0 P0; [exists e0; repeat split; try apply I0; reflexivity|].
+    destruct (run_one_nav mk mx keys (hist e) (line e) e0 c Hn I0 P0) as (e1 & W & I1 & P1 & A1). cbn [run_navs map fst]. rewrite W. cbn [bind].
+    destruct (IH e1 I1 P1) as (e2 & W2 & I2 & A2). exists e2. split; [exact W2|]. split; [exact I2|]. rewrite A2, A1. reflexivity. }
+  destruct (G cs e I Pe) as (e' & W & (Hh & Hc' & St) & A).
+  exists e'. split; [exact W|]. split; [exact Hh|].
+  assert (A0 : apos e = 0) by (unfold apos; rewrite Hp; reflexivity). rewrite A0 in A. cbv zeta. rewrite <- A.
+  unfold apos. destruct St as [[P L] | (P & L & _)].
+  - split; [intros _; split; assumption | intros K; rewrite P in K; lia].
+  - split; [intros K; lia | intros _; split; [lia|]]. rewrite L. replace (Z.max 0 (hpos e')) with (hpos e') by lia. apply entry_hist. exact Hh.
 Qed.
